@@ -1,6 +1,7 @@
 // C12 correspondence harness (a): drives cppcms::impl::multipart_parser of the current tree directly
 // (header-only state machine + libcppcms http::file / file_buffer / content_type), with explicit cut lists.
 //   mp   <mem> <ct-hex> <cuts> <body-hex>   cuts: "-" one chunk | b<k> blocks of k bytes | o1,o2,... cut offsets
+// (an optional last field carries the expectation of the oracle and is ignored here)
 //   all2 <mem> <ct-hex> <body-hex>          every 2-cut of the body against the single-chunk run
 // The driver loop is the one of tests/multipart_parser_test.cpp / http::request::on_content_progress:
 // per chunk, call consume until the chunk is used up or a terminal result comes back.
@@ -125,6 +126,8 @@ static run_result run(long mem,std::string const &ct,std::string const &body,std
 	return R;
 }
 
+static std::string cls(std::string const &s) { return s=="earlyeof" ? std::string("error") : s; }
+
 int main()
 {
 	char const *base=getenv("C12_TMPDIR");
@@ -138,7 +141,7 @@ int main()
 	while(std::getline(std::cin,line)) {
 		std::vector<std::string> v=split(line);
 		std::ostringstream out;
-		if(v.size()==5 && v[0]=="mp") {
+		if((v.size()==5 || v.size()==6) && v[0]=="mp") {
 			long mem=atol(v[1].c_str());
 			std::string ct=unhex(v[2]), body=unhex(v[4]);
 			run_result R=run(mem,ct,body,parse_cuts(v[3],body.size()),true);
@@ -148,7 +151,7 @@ int main()
 				if(R.size_mismatch) out<<" SIZE-MISMATCH";
 			}
 		}
-		else if(v.size()==4 && v[0]=="all2") {
+		else if((v.size()==4 || v.size()==5) && v[0]=="all2") {
 			long mem=atol(v[1].c_str());
 			std::string ct=unhex(v[2]), body=unhex(v[3]);
 			run_result R0=run(mem,ct,body,parse_cuts("-",body.size()),false);
@@ -159,7 +162,8 @@ int main()
 				for(size_t k=1;k<n;k++) {
 					std::vector<size_t> ends; ends.push_back(k); ends.push_back(n);
 					run_result R=run(mem,ct,body,ends,false);
-					if(R.status!=R0.status || R.nfiles!=R0.nfiles || R.files!=R0.files || R.cur!=R0.cur || R.tmp_alive!=R0.tmp_alive) {
+					// an eof that is not at the end of the data and a parsing error are both "refused" (400 in on_content_progress)
+					if(cls(R.status)!=cls(R0.status) || R.nfiles!=R0.nfiles || R.files!=R0.files || R.cur!=R0.cur || R.tmp_alive!=R0.tmp_alive) {
 						if(any) diff<<","; any=true; diff<<k;
 					}
 					leaks+=R.tmp_after; if(R.size_mismatch) mism=true;
